@@ -223,6 +223,7 @@ template<typename T> struct EbSk: Sk {
   typedef typename Item<T>::serde SD;
   std::unique_ptr<S> s;
   explicit EbSk(S&& s_): s(new S(std::move(s_))) {}
+  bool state_consistent() const override { if (s->is_empty()) return true; size_t cnt = 0; for (auto it = s->begin(); it != s->end(); ++it) cnt++; const double c = s->get_c(); return static_cast<double>(cnt) == std::floor(c) || static_cast<double>(cnt) == std::ceil(c); }
   const char* fam() const override { static std::string n = std::string("ebpps<") + NameOf<T>::s() + ">"; return n.c_str(); }
   Sk* clone() const override { return new EbSk(S(*s)); }
   Sk* move_out() override { return new EbSk(S(std::move(*s))); }
